@@ -61,6 +61,9 @@ type Request struct {
 	Segs   []string `json:"segs"` // segments below the prefix
 	Slash  bool     `json:"slash,omitempty"`
 	Depth  string   `json:"depth,omitempty"`
+	// Warm: earlier requests served by the same handler (index pairs into a fixed pool of methods x depths below the
+	// prefix): routing keeps no memory of them
+	Warm []int `json:"warm,omitempty"`
 }
 
 type Case struct {
@@ -243,6 +246,22 @@ func evalRequest(c Case) (vev.Outcome, error) {
 	}
 	if req.URL.Path != full {
 		return vev.Outcome{}, fmt.Errorf("request path %q parsed as %q", full, req.URL.Path)
+	}
+	for _, k := range r.Warm {
+		methods := []string{"PROPFIND", "GET", "OPTIONS", "MKCOL", "DELETE", "PUT"}
+		segs := [][]string{{}, {l.User}, {l.User, l.Home}, {l.User, l.Home, "warm-coll"}, {l.User, l.Home, "warm-coll", "warm-obj"}, {"other-user"}, {"other-user", l.Home}}
+		m, sg := methods[k%len(methods)], segs[(k/len(methods))%len(segs)]
+		wraw := fmt.Sprintf("%s %s HTTP/1.1\r\nHost: dav.example\r\nDepth: 1\r\nContent-Length: 0\r\n\r\n", m, cfs.EscapePath(join(append(append([]string{}, l.Prefix...), sg...), k%2 == 0)))
+		if wreq, err := http.ReadRequest(bufio.NewReader(strings.NewReader(wraw))); err == nil {
+			cfs.Serve(w.h, wreq)
+		}
+	}
+	if len(r.Warm) > 0 {
+		if w.cal != nil {
+			w.cal.Reset()
+		} else {
+			w.card.Reset()
+		}
 	}
 	resp := cfs.Serve(w.h, req)
 	calls := w.calls()
@@ -664,6 +683,9 @@ func TestRequests(t *testing.T) {
 		}
 		if r.Method == "PROPFIND" {
 			r.Depth = rapid.SampledFrom([]string{"", "0", "1", "infinity"}).Draw(rt, "hdepth")
+		}
+		if rapid.IntRange(0, 2).Draw(rt, "warm?") == 0 {
+			r.Warm = rapid.SliceOfN(rapid.IntRange(0, 41), 1, 3).Draw(rt, "warm")
 		}
 		run(t, rt, Case{Layout: l, Kind: "request", Req: &r}, fmt.Sprintf("request/%s/depth%d", l.Server, depth))
 	})
